@@ -111,6 +111,22 @@ def synth_enum(rng, k, package_id):
     return head + rows
 
 
+def synth_entity(rng, k, package_id):
+    '''rows of one extra external entity whose three to five bridges each return their own constant'''
+    def uid():
+        return '"%s"' % uuid.UUID(int=rng.getrandbits(128), version=4)
+    ee = uid()
+    integer = '"ba5eda7a-def5-0000-0000-000000000002"'
+    rows = ["INSERT INTO S_EE\n\tVALUES (%s,\n\t'synth %d',\n\t'',\n\t'SYNEE%d',\n\t%s,\n\t'',\n\t'',\n\t0);" % (ee, k, k, NULL),
+            "INSERT INTO PE_PE\n\tVALUES (%s,\n\t1,\n\t%s,\n\t%s,\n\t5);" % (ee, package_id, NULL)]
+    brgs = []
+    for j in range(rng.randint(3, 5)):
+        brgs.append("INSERT INTO S_BRG\n\tVALUES (%s,\n\t%s,\n\t'b%d',\n\t'',\n\t0,\n\t%s,\n\t'return %d;',\n\t1,\n\t'',\n\t0);"
+                    % (uid(), ee, j, integer, 100 * (k + 1) + j))
+    rng.shuffle(brgs)
+    return rows + brgs
+
+
 class ModelOrderEngine(Engine):
     name = 'modelorder'
     props = ('C14', 'C15', 'C20')
@@ -185,6 +201,8 @@ class ModelOrderEngine(Engine):
         if pkg and sw.random() < 0.7:
             for k in range(sw.randint(1, 3)):
                 extra.append(synth_enum(rng, k, pkg))
+        if pkg and prop == 'C15' and sw.random() < 0.6:
+            extra.append(synth_entity(rng, 0, pkg))
         cfg = {'model': name, 'extra': extra, 'plans': [st['sched'].getrandbits(48) for _ in range(sw.choice([2, 2, 3]))],
                'derived': sw.random() < 0.5, 'real_ctor': sw.random() < 0.1, 'globals': True}
         ops = list(range(len(stmts)))
@@ -247,8 +265,19 @@ class ModelOrderEngine(Engine):
                 if all(isinstance(v, int) and not isinstance(v, bool) for v in h):
                     symbols[name] = ('enum', tuple((f, getattr(h, f)) for f in h._fields))
                 else:
-                    # an external entity: a tuple of callables, compared by the names of its bridges
-                    symbols[name] = ('entity', tuple(sorted(h._fields)))
+                    # an external entity: a tuple of callables, compared by the names of its bridges -- and, for the
+                    # seeded entities whose bridges take no parameters, by what each bridge returns
+                    if name.startswith('SYNEE'):
+                        res = []
+                        for f in sorted(h._fields):
+                            try:
+                                res.append((f, sqlgen.cv(getattr(h, f)())))
+                            except Exception as e:
+                                res.append((f, 'raised ' + type(e).__name__))
+                        symbols[name] = ('entity', tuple(res))
+                        self.bridges_called = getattr(self, 'bridges_called', 0) + len(res)
+                    else:
+                        symbols[name] = ('entity', tuple(sorted(h._fields)))
             elif isinstance(h, (bool, int, float, str)):
                 symbols[name] = ('const', sqlgen.cv(h))
         return symbols
@@ -307,6 +336,21 @@ class ModelOrderEngine(Engine):
                                             'succession order (%s) is %d' % (ename, n, pos[n], ' -> '.join(exp), i),
                                             'enum-order:modelled')
                     probes['enum_order_checked'] = probes.get('enum_order_checked', 0) + 1
+                # seeded external entities: every bridge returns the constant its own body names
+                import re as _re
+                for ename, got in sorted(base.items()):
+                    if not ename.startswith('SYNEE') or got[0] != 'entity':
+                        continue
+                    wanted = {}
+                    for t in texts:
+                        mm = _re.search(r"INSERT INTO S_BRG\s+VALUES \([^,]+,\s*[^,]+,\s*'(b\d+)',.*?'return (\d+);'", t, _re.S)
+                        if mm:
+                            wanted[mm.group(1)] = int(mm.group(2))
+                    for f, v in got[1]:
+                        if f in wanted and v != sqlgen.cv(wanted[f]):
+                            raise Violation('bridge-result', 'external entity %s: bridge %s returned %r, its body is '
+                                            '"return %d;"' % (ename, f, v, wanted[f]), 'bridge-result')
+                    probes['bridge_results_checked'] = probes.get('bridge_results_checked', 0) + 1
                 if any(v[0] == 'const' for v in base.values()):
                     probes['constants_compared'] = probes.get('constants_compared', 0) + 1
             for step, plan_seed in enumerate(cfg['plans'], 1):
